@@ -74,6 +74,18 @@ RULES = {
 }
 
 
+def _seeding_helper(facts, callee):
+    """a new private helper (inlined into its callers at HIR level, so SEED judges its seed there) that returns the per-item
+    generator: its own MIR seeds a generator and makes no draw on it — for RNGPROTO the call is the S event"""
+    from .. import inline, mirq
+    f = facts.fns.get(callee)
+    if f is None or "mir" not in f or not inline.absorbed(facts, callee) or proto.GEN not in str(f.get("ret", "")):
+        return False
+    evs = [proto.event_of(t_) for (_i, t_) in mirq.calls(f["mir"])]
+    evs = [e for e in evs if e]
+    return "S" in evs and all(e == "S" for e in evs)
+
+
 def _guard_pair(ctx, facts, fid, allowed_val):
     fn = facts.fn(fid)
     t = tree_of(fn)
@@ -88,7 +100,7 @@ def _guard_pair(ctx, facts, fid, allowed_val):
             ctx.violation("GUARD", fid, "signature write of unexpected shape", where, "expected `self.signature[k] = key`, found %s" % hirq.show(w)[:80])
             continue
         k = nf.nf(idx[0], casts=True, res=R)
-        conds = nf.all_conditions(t, w, res=R)
+        conds = nf.control_facts(t, w, res=R)
         # the guard: (h < self.maxvaluetracker.get_value(k))
         h = None
         for it in conds:
@@ -365,6 +377,9 @@ def _types_erased(s):
     return re.sub(r"key", "key", s)
 
 
+from ..rulelib import before as _before
+
+
 def _compact_rule(ctx, facts, fid):
     """COMPACT: the second pass of 3a/3aSha compacts the deferral buffer in place: every kept item is written at
     to_be_processed[pos] with pos += 1 in the same block, pos starts at 0 in every pass, and the buffer is truncated to pos
@@ -391,7 +406,7 @@ def _compact_rule(ctx, facts, fid):
     # the init is inside the pass loop, the truncate after the inner for loop, both in the pass body
     loops_k = t.enclosing_loops(kp)
     ok_tr = nf.nf(tr["args"][0], True) == pos and len(loops_k) == 2 and t.contains(loops_k[1], tr) and not t.contains(loops_k[0], tr) and \
-        tr["sp"][1] > kp["sp"][1] and not nf.all_conditions(t, tr, stop=loops_k[1])[1:]
+        _before(fn, kp, tr) and not nf.all_conditions(t, tr, stop=loops_k[1])[1:]
     lets = [n for n in user_nodes(fn) if n["k"] == "Let" and n["pat"]["k"] == "Bind" and n["pat"]["name"] == pos]
     ok_scope = len(lets) == 1 and len(loops_k) == 2 and t.contains(loops_k[1], lets[0]) and not t.contains(loops_k[0], lets[0])
     # the kept tuple is the item's own (key, inverse weight, generator state)
@@ -534,7 +549,8 @@ def run(ctx, facts):
         fn = facts.fn(fid)
         from ..rulelib import seed_wrapper
         from .. import mirq
-        wrappers = {c for c in {t_.get("callee") for (_i, t_) in mirq.calls(fn["mir"])} if c and c in facts.fns and seed_wrapper(facts, c)}
+        wrappers = {c for c in {t_.get("callee") for (_i, t_) in mirq.calls(fn["mir"])} if c and c in facts.fns and
+                    (seed_wrapper(facts, c) or _seeding_helper(facts, c))}
         cnt, rej, evs = proto.check(fn, wrappers)
         nev += cnt
         if cnt < 4:
